@@ -266,6 +266,10 @@ def check_resample(pre, post, ne, flag, an=None):
         if len(Qs) > 1 and Qs[0] == Qs[-1]:
             Qs.pop()
         P = list(cyc)
+        gone = [v for v in P if v not in post["v"]]
+        if gone:
+            add("G4", "cell cycle keeps a point that resampling removed from the mesh", cell=cid, vertices=gone[:6])
+            continue
         if len(set(P)) != len(P):
             add("G4", "cell cycle repeats a vertex", cell=cid)
             continue
